@@ -26,7 +26,7 @@ func init() {
 		keys := []string{"a", "b", "name", "a\"b", "<x>", "é", "k 1", "", "\\", " "}
 		prims := []string{`1`, `"s"`, `true`, `null`, `-2.5e3`, `"a\"b"`, `"<>&"`, `""`}
 		datas := []string{`{"x":1}`, `[1,2]`, `{"a":{"b":[]}}`, `[]`}
-		prefixes := []string{"/api/", "/", "/a/b/"}
+		prefixes := []string{"/api/", "/", "/a/b/", "/v1.2/"}
 		rids := []string{"test.a", "test.b", "test.c.d", "x", "test.e?q=1", "t.f~g"}
 		for i := 0; i < n; i++ {
 			nn := 1 + r.Intn(5)
